@@ -86,6 +86,9 @@ pub fn is_response(path: &str) -> bool {
 
 /// two independent symbolic instances of `honest`; for each wire atom ask whether equal digests force equal atoms
 fn binding_of<T: Serialize + DeserializeOwned + ChallengeInput>(tyname: &str, honest: &T, sample_stride: usize) {
+    binding_of_for("C12", tyname, honest, sample_stride)
+}
+pub fn binding_of_for<T: Serialize + DeserializeOwned + ChallengeInput>(prop: &str, tyname: &str, honest: &T, sample_stride: usize) {
     let (a, at_a, _) = atoms::symbolize(honest, "A");
     let (b, at_b, _) = atoms::symbolize(honest, "B");
     let da = digest_of(&a, "hashA");
@@ -99,10 +102,10 @@ fn binding_of<T: Serialize + DeserializeOwned + ChallengeInput>(tyname: &str, ho
         let (xs, ys) = (Scalar::from_term(x.term()), Scalar::from_term(y.term()));
         if is_response(&x.path) {
             // responses are deliberately not hashed: documented with the constructive twin
-            expect_free(&format!("C12 {}.{} (response scalar) is not part of the transcript", tyname, x.path), &ax, &same, xs, ys);
-        } else if let Some(m) = unbound_query(&format!("C12 {}.{} bound by the challenge (equal digest /\\ different atom)", tyname, x.path), &ax, &same, xs, ys) {
+            expect_free(&format!("{} {}.{} (response scalar) is not part of the transcript", prop, tyname, x.path), &ax, &same, xs, ys);
+        } else if let Some(m) = unbound_query(&format!("{} {}.{} bound by the challenge (equal digest /\\ different atom)", prop, tyname, x.path), &ax, &same, xs, ys) {
             eng::finding(
-                &format!("C12 unbound-atom {}.{}", tyname, x.path),
+                &format!("{} unbound-atom {}.{}", prop, tyname, x.path),
                 &format!("two {} values that differ only in {} produce the same challenge transcript", tyname, x.path),
                 Some(m),
                 json!({"kind": "model", "type": tyname, "atom": x.path}),
